@@ -18,6 +18,7 @@ import MysyncModel.Replay.C01
 import MysyncModel.Replay.C11
 import MysyncModel.Replay.C19
 import MysyncModel.Replay.C10
+import MysyncModel.Replay.Zk
 
 open Lean Replay
 
@@ -38,7 +39,8 @@ def handlers : List (String × Handler) := [
   ("c01", Replay.C01.handle),
   ("c11", Replay.C11.handle),
   ("c19sync", Replay.C19.handle),
-  ("c10pass", Replay.C10.handle)
+  ("c10pass", Replay.C10.handle),
+  ("zkhist", Replay.ZkH.handle)
 ]
 
 partial def loop (h : IO.FS.Stream) (seen : Std.HashSet UInt64) (a : Acc) : IO Acc := do
